@@ -234,6 +234,27 @@ SEEDS = {
     "C18k-csr-skips-transform-if-buffer-equal": ("C18", "padBunchProfiles() directly followed by updateCSR() on one object after the profile changed: the transform is skipped when the padded buffer already equals the profile, the spectrum comes from the previously transformed profile", ["C07"]),
     "C19k-phase-folded-into-one-rf-period": ("C19", "a phase excursion beyond half an RF period (--RFPhaseModAmplitude above about 180 degree): the queued phase is folded into [-pi,pi], records are not the configured sine and the linear model's kick jumps by a full period", ["C10"]),
     "C20k-run-anyway-bool-switch": ("C20", "--run_anyway with an explicit value on the command line (false / 0 / =false): the command-line twin became a bool_switch, the value token is dropped or refused, a config-file true can no longer be overridden", ["C13"]),
+    # ---- round 12
+    "C01l-pairwise-node-loop-drops-third-node": ("C01", "--InterpolationPoints 3, a y kick and a fractional displacement in a charged row: the node loop of apply() takes two nodes per pass and handles a left-over node only for the 1-point scheme, the third node's share f(f+1)/2 is lost", ["C02", "C08"]),
+    "C02l-whole-cell-rows-reuse-stale-weights": ("C02", "one offset field that mixes fractional and whole-cell rows (a whole-cell row after a fractional one), order >= 2: the weights are computed only for rows with a fraction, a whole-cell row keeps the weights of the last fractional row", ["C01"]),
+    "C03l-start-file-scales-swapped": ("C03", "an .h5 start file together with the sinusoidal RF: the loader's definition names its trailing scale parameters (dE, bl) while declaration and callers pass (bl, dE), the loaded grid's Meter and ElectronVolt scales are swapped", ["C11", "C10"]),
+    "C04l-start-file-energy-scale-relative": ("C04", "an .h5 start file together with the sinusoidal RF, no impedance: main hands the relative energy spread to the loader as the energy-axis scale, the sinusoidal kick is E0 times too large, lengths go NaN", ["C11", "C03"]),
+    "C05l-odd-stencil-base-by-rounding": ("C05", "--InterpolationPoints 3: the base index of stencils with a central node comes from round(offset) while the fraction is still offset - floor(offset), rows with a fraction of 0.5 and more move one extra cell", ["C02", "C03", "C01"]),
+    "C06l-wake-divided-by-integrated-charge": ("C06", "a phase space whose integrated charge differs from 1 (charge lost without renormalisation, non-unit profiles through the API) and integrate() called since: the wake is divided by that charge", ["C10", "C07"]),
+    "C07l-power-by-complex-product-cancellation": ("C07", "an almost purely reactive passive impedance (|Im Z| a million times Re Z, or Re Z = 0): the spectrum bin is Re((Z F) conj(F)) in single precision, the reactive part no longer cancels exactly - negative bins, negative power", ["C18"]),
+    "C08l-lower-bound-from-array-start": ("C08", "two or more bunches, a y kick towards lower energy at the first column and charge in the top rows of the preceding bunch's last column: the lower bound of the source row is measured from the start of the whole array, the neighbouring bunch's cells are read", ["C01", "C17"]),
+    "C09l-energy-projection-skips-empty-position-rows": ("C09", "data replaced through getData() with charge in rows whose position projection is exactly zero, and updateYProjection() called before updateXProjection(): rows with an empty position projection are skipped", ["C10"]),
+    "C10l-time-stamp-by-running-float-sum": ("C10", "thousands of output records with an increment outstep/N that is not a power of two (-N 600 -n 2 -T 40): record time stamps are a running single-precision sum, they drift from step/N and the axis is not increasing at the final record", ["C12", "C14"]),
+    "C11l-rank3-start-file-always-record-0": ("C11", "a start file in the older three-dimensional layout with more than one record: the time offset of the hyperslab is only set for four-dimensional files, record 0 is always read", ["C17"]),
+    "C12l-time-stamp-float-sum-depends-on-cadence": ("C12", "two runs differing only in -n with a step count per period that is not a power of two (-N 50): in-loop time stamps are a running single-precision sum, a common record's stamp depends on how many records were written before it", ["C10"]),
+    "C13l-float-options-saved-with-8-digits": ("C13", "a single-precision option given with nine significant digits in a range where neighbouring floats share their 8-digit form (-F 1000123.45): the .cfg writer uses digits10+2 = 8 digits for floats", ["C20"]),
+    "C14l-final-record-without-phase-space-off-stride": ("C14", "SavePhaseSpace n >= 2, outstep > 0 and an interrupt when the number of output blocks done is not a multiple of n: the final record is written without its phase space", ["C10", "C11"]),
+    "C15l-approx1-distance-assumes-upper-stencil": ("C15", "--FPTrack 1 with the cubic stencil and a particle at negative energy: the distance from the target row to each stencil node is taken as 1-j, which holds for the upper half only - the mirrored stencil below zero energy is off by one", ["C04"]),
+    "C16l-table-row-labelled-zero-dropped": ("C16", "an impedance file whose first row is labelled harmonic 0: the repeated-line sentinel starts at 0, the first row is taken for a repeat and dropped, every value moves down one index", ["C17", "C10"]),
+    "C17l-spaced-length-from-unrounded-spacing": ("C17", "three or more buckets, RoundPadding false, a bucket spacing whose length in cells rounds up and buckets that nearly touch: the train buffer's lower bound uses the unrounded spacing, the last bunch is written a few floats past the buffers", ["C06", "C10"]),
+    "C18l-nonfinite-wake-sample-keeps-old-value": ("C18", "a wake that overflows single precision for the current profile but not for an earlier one on the same object: a non-finite sample is not stored, the array keeps the earlier profile's value", ["C06"]),
+    "C19l-modulation-step-from-rounded-run-length": ("C19", "RF phase modulation and a -T for which N*T is not an integer (-T 0.4 at -N 64; 1.3; 0.26): the modulation time step is total time / ceil(steps), the recorded and applied modulation frequency is low by steps*T/ceil(steps*T)", ["C10"]),
+    "C20l-config-validation-skips-options-on-cli": ("C20", "a config file holding a malformed value for an option that is also given validly on the command line: the scratch map that validates the file is copied from the command-line map, boost skips the option - no message, exit status 0", ["C13"]),
 }
 
 
